@@ -254,6 +254,7 @@ Definition regex_provide (x : regexp) (conts : list nat) (off : nat) (other : N)
     | Some None => ROk []
     | Some (Some (at0, mlen)) =>
       if negb at0 then (if x_debug x then RErr else ROk [])
+      else if OF.regex_ignores_empty_match && Nat.eqb mlen 0 then ROk []   (* an empty match is not a word *)
       else
         let mend := (off + mlen)%nat in
         let nd := oov_node off mend (x_def x) in
@@ -440,7 +441,7 @@ Definition regex_expected (x : regexp) (cs : list N) (off : nat) (pre : list nat
        | Some None => Some (ROk [])
        | Some (Some (at0, mlen)) =>
          if negb at0 then Some (if x_debug x then RErr else ROk [])
-         else if Nat.eqb mlen 0 then None      (* empty match: outside C13 (see C03) *)
+         else if Nat.eqb mlen 0 then Some (ROk [])   (* an empty match is not a word *)
          else if existsb (Nat.eqb (off + mlen)) pre then Some (ROk [])
          else Some (ROk [oov_node off (off + mlen) (x_def x)])
        end.
